@@ -1,10 +1,10 @@
 from tsv.driver import run_check
 from contracts.distr import density_harnesses
-from contracts.mog import mog_harnesses, kde_harnesses
+from contracts.mog import mog_harnesses, kde_harnesses, mog_sample_harnesses
 
 
 def run(tier, seed, update_ledger=False, only=None, jobs=None):
-    hs = [h for h in density_harnesses(tier) + mog_harnesses(tier) + kde_harnesses(tier) if not only or only in h.hid]
+    hs = [h for h in density_harnesses(tier) + mog_harnesses(tier) + kde_harnesses(tier) + mog_sample_harnesses(tier) if not only or only in h.hid]
     return run_check("C05", hs, tier=tier, seed=seed, update_ledger=update_ledger, jobs=jobs,
                      unbounded_in=["all input, parameter and context values"],
                      bounded_in={"event shapes": "[2], [2,2], [1,2]", "Bernoulli dimension": "1, 2 (exact summation over {0,1}^D)"},
